@@ -308,17 +308,25 @@ func (s *State) evalInternal(node any) object.Object { //nolint:funlen,gocognit,
 		if f.Type() == object.ERROR {
 			return f
 		}
-		args, oerr := s.evalExpressions(node.Arguments)
+		if f.Type() == object.EXTENSION {
+			ext := f.(object.Extension)
+			// Arguments declared as ANY (and the untyped extra ones) are handed over as is: type() shows references.
+			args, oerr := s.evalExpressions(node.Arguments, func(i int) bool {
+				return i >= len(ext.ArgTypes) || ext.ArgTypes[i] == object.ANY
+			})
+			if oerr != nil {
+				return *oerr
+			}
+			return s.applyExtension(ext, args)
+		}
+		args, oerr := s.evalExpressions(node.Arguments, nil)
 		if oerr != nil {
 			return *oerr
-		}
-		if f.Type() == object.EXTENSION {
-			return s.applyExtension(f.(object.Extension), args)
 		}
 		name := node.Function.Value().Literal()
 		return s.applyFunction(name, f, args)
 	case *ast.ArrayLiteral:
-		elements, oerr := s.evalExpressions(node.Elements)
+		elements, oerr := s.evalExpressions(node.Elements, nil)
 		if oerr != nil {
 			return *oerr
 		}
@@ -542,7 +550,7 @@ func (s *State) evalBuiltin(node *ast.Builtin) object.Object {
 		if isError {
 			val = object.String{Value: val.(object.Error).Value}
 		}
-		return object.MakeQuad(ErrorKey, object.NativeBoolToBooleanObject(isError), object.ValueKey, object.CopyRegister(val))
+		return object.MakeQuad(ErrorKey, object.NativeBoolToBooleanObject(isError), object.ValueKey, object.Value(val))
 	case token.ERROR, token.PRINT, token.PRINTLN, token.LOG:
 		return s.evalPrintLogError(node)
 	case token.FIRST:
@@ -858,15 +866,21 @@ func (s *State) extendFunctionEnv(
 	return env, newBody, nil
 }
 
-func (s *State) evalExpressions(exps []ast.Node) ([]object.Object, *object.Error) {
+// Each expression yields its value as of when it is evaluated (left to right), not a (live) reference to an
+// outer variable which a later expression of the list, or later code, may change - except where keepRef says so.
+func (s *State) evalExpressions(exps []ast.Node, keepRef func(i int) bool) ([]object.Object, *object.Error) {
 	result := object.MakeObjectSlice(len(exps)) // not that this one can ever be huge but, for consistency.
-	for _, e := range exps {
+	for i, e := range exps {
 		evaluated := s.evalInternal(e)
 		if rt := evaluated.Type(); rt == object.ERROR {
 			oerr := evaluated.(object.Error)
 			return nil, &oerr
 		}
-		result = append(result, object.CopyRegister(evaluated))
+		if keepRef != nil && keepRef(i) {
+			result = append(result, object.CopyRegister(evaluated))
+		} else {
+			result = append(result, object.Value(evaluated))
+		}
 	}
 	return result, nil
 }
